@@ -211,6 +211,44 @@ func runGrpcBurst(n int, dir int) (impl, pred string) {
 	return impl, "ok"
 }
 
+// runBigBrokered: a 6 MiB response over a brokered connection, in both directions (the limits go-plugin lifts on the
+// main connection are lifted on brokered connections too).
+func runBigBrokered(mux bool) (impl, pred string) {
+	p, err := newGrpcPair(mux)
+	if err != nil {
+		return "setup-error", "FAIL:setup"
+	}
+	defer p.close()
+	var rs []string
+	pred = "ok"
+	for dir, pair := range [][2]*plugin.GRPCBroker{{p.plug, p.host}, {p.host, p.plug}} {
+		acceptor, dialler := pair[0], pair[1]
+		id := uint32(900 + dir)
+		go func() {
+			defer func() { recover() }()
+			acceptor.AcceptAndServe(id, func(opts []grpc.ServerOption) *grpc.Server {
+				s := grpc.NewServer(opts...)
+				grpctest.RegisterPingPongServer(s, &pingPong{id: id, pad: 6 << 20})
+				return s
+			})
+		}()
+		time.Sleep(150 * time.Millisecond)
+		ans, conn, err := pingKeep(dialler, id, 15*time.Second)
+		if conn != nil {
+			conn.Close()
+		}
+		r := "ok"
+		if err != nil || !strings.HasPrefix(ans, fmt.Sprintf("%d/", id)) || len(ans) < 6<<20 {
+			r = "failed"
+			if pred == "ok" {
+				pred = fmt.Sprintf("FAIL:large-response-over-brokered-connection-dir%d", dir)
+			}
+		}
+		rs = append(rs, r)
+	}
+	return "dirs=" + strings.Join(rs, ","), pred
+}
+
 // runMuxRedial: a long-lived listener on one id is dialled, and dialled again `gap` later (longer than every pending
 // window): the second connection must work like the first.
 func runMuxRedial(role string, gap time.Duration) (impl, pred string) {
